@@ -242,4 +242,28 @@ func runC06(c *Ctx) {
 	// input can be destroyed while the output exists, and nothing ever tears the output down
 	c.Import(runC07, "R07.3", "", "R06.8", "E1", "qtransform.reconcileRunning: the output is modified only after the controller finalizer is on the input", 2)
 
+	// ---------- R06.9 only a cancelled context is not a failure
+	c.Rule("R06.9", "E1", "the controller adapters turn an error into success only for context.Canceled: any other error of a reconcile (a transient timeout included) is reported, so that it is retried / the controller restarted", 3)
+
+	for _, rel := range []string{pkgRRuntime, pkgQRuntime} {
+		for _, f := range p.PkgFuncs(rel) {
+			clear := func(in ssa.Instruction) bool {
+				st, ok := in.(*ssa.Store)
+				if !ok || !isNilConst(st.Val) {
+					return false
+				}
+
+				d := p.Desc(st.Addr)
+
+				return Glob("free:var:error*", d)
+			}
+
+			if len(Find(f, clear)) == 0 {
+				continue
+			}
+
+			c.MustCut("R06.9", "err = nil ⊣ {errors.Is(err, context.Canceled)}", f, clear, CutSpec{Edges: FactEdge("true(call:errors.Is(*,*global:context.Canceled))")}, 1)
+		}
+	}
+
 }
